@@ -73,19 +73,33 @@ func clip(s string) string {
 	return s
 }
 
+// FamilyOf is vnode.Family with the executor name kept for executor-owned local keys
+// ("LODB-coins-", "LODB-manage-", ...) and the record kind kept for mvcc keys (".-mvcc-.d.", ".-mvcc-.m.").
+func FamilyOf(k string) string {
+	if strings.HasPrefix(k, "LODB-") {
+		if i := strings.Index(k[5:], "-"); i >= 0 {
+			return k[:5+i+1]
+		}
+	}
+	if strings.HasPrefix(k, ".-mvcc-.") && len(k) >= 10 {
+		return k[:10]
+	}
+	return vnode.Family([]byte(k))
+}
+
 // DiffDump lists the keys on which got differs from ref, sorted by key.
 func DiffDump(ref, got map[string]string) []Residue {
 	var out []Residue
 	for k, g := range got {
 		if r, ok := ref[k]; !ok {
-			out = append(out, Residue{Key: k, Family: vnode.Family([]byte(k)), Kind: "extra", Got: g})
+			out = append(out, Residue{Key: k, Family: FamilyOf(k), Kind: "extra", Got: g})
 		} else if r != g {
-			out = append(out, Residue{Key: k, Family: vnode.Family([]byte(k)), Kind: "differs", Ref: r, Got: g})
+			out = append(out, Residue{Key: k, Family: FamilyOf(k), Kind: "differs", Ref: r, Got: g})
 		}
 	}
 	for k, r := range ref {
 		if _, ok := got[k]; !ok {
-			out = append(out, Residue{Key: k, Family: vnode.Family([]byte(k)), Kind: "missing", Ref: r})
+			out = append(out, Residue{Key: k, Family: FamilyOf(k), Kind: "missing", Ref: r})
 		}
 	}
 	sort.Slice(out, func(i, j int) bool { return out[i].Key < out[j].Key })
